@@ -168,6 +168,30 @@ def run_soundness(item):
 
 
 def one_model(case, sel, mode, state):
+  from vq import isolated
+  u = kfpred.unsafe_findings(case)
+  if u and not os.environ.get('VQ_ISOLATED_CHILD'):
+    os.environ['VQ_ISOLATED_CHILD'] = '1'
+    try:
+      status, r = isolated.run('vq.props.c13', 'one_model_child', {'case': case, 'sel': sel, 'mode': mode})
+    finally:
+      os.environ.pop('VQ_ISOLATED_CHILD', None)
+    state['quantized'] += 1
+    if status == 'violation':
+      r.data = case
+      raise r
+    if status == 'abort':
+      raise _v(case, 'accepted_pair_numerically_unsound:runtime_abort', 'interpreter died with signal %s' % r)
+    return
+  _one_model(case, sel, mode, state)
+
+
+def one_model_child(d):
+  _one_model(d['case'], d['sel'], d['mode'], {'n': 0, 'quantized': 0})
+  return None
+
+
+def _one_model(case, sel, mode, state):
   out = engine.run(case)
   where = '%s %s' % (sel, core.jdump(case['recipe']['rules'][0]['cfg']))
   if not out.ok:
